@@ -257,10 +257,27 @@ func (ce *codecEngine) tripCount(h *ssa.BasicBlock) string {
 	if !ok {
 		return ""
 	}
-	bo, ok := iff.Cond.(*ssa.BinOp)
-	if !ok || bo.Op != token.LSS {
+	bo0, ok := iff.Cond.(*ssa.BinOp)
+	if !ok {
 		return ""
 	}
+	// `i < N` or `N > i`: read with the counter on the left
+	isCtr := func(v ssa.Value) bool {
+		if ph, ok := v.(*ssa.Phi); ok && ph.Block() == h {
+			return true
+		}
+		if b2, ok := v.(*ssa.BinOp); ok && b2.Op == token.ADD {
+			if ph, ok := b2.X.(*ssa.Phi); ok && ph.Block() == h {
+				return true
+			}
+		}
+		return false
+	}
+	op0, x0, y0, okO := orientCmp(bo0, isCtr)
+	if !okO || op0 != token.LSS {
+		return ""
+	}
+	bo := &struct{ X, Y ssa.Value }{x0, y0}
 	// counter
 	var ctr *ssa.Phi
 	var bound ssa.Value
